@@ -5,11 +5,12 @@ C18 — the CLI bridge is transparent.
 at byte level, `Proxy.upgradedPump` / `Proxy.directMode` the byte pumps,
 `Proxy.idealRun` the specification: what the client observes when it talks to the
 services directly (Lemmas/Proxy.lean).  The model is the code after the fix
-commits 723e399 … ac1225d (unknown interface / unreachable address / method
+commits 723e399 … aebf686 (unknown interface / unreachable address / method
 without dot / parameterless GetInterfaceDescription are answered and the loop goes
 on, GetInfo goes to the configured resolver, bytes buffered behind an upgrading
 request go to the service, `--connect` works without a child, data that arrived
-before a hang-up is delivered).
+before a hang-up is delivered, the end of the client's stream is passed on to the service
+as a half-close: aebf686).
 
 The full statement — for every world and every request list
 `(run w {} fs).groups = idealRun w 0 [] rs ∧ status = eof` — is still false:
@@ -368,7 +369,11 @@ theorem C18_upgrade_hands_over_all (w : World) (dec : Bytes → Frame) (reads : 
 
 /-- **C18 direct pump**: in direct mode (`--connect`, `--activate`, `--bridge`) the service
     receives exactly the client's byte stream and the client receives exactly the service's
-    byte stream, whatever the chunking of the two copy loops -/
+    byte stream — the *whole* output for the *whole* input, also when the client's stream
+    ends first: `clientReads` is the client's stream up to its end, which is passed on as a
+    half-close (aebf686), and `svcOut` of it is everything the service writes until it
+    closes — whatever the chunking of the two copy loops.  No exception for a client that
+    closes right after its last request remains. -/
 theorem C18_direct_pump (svcOut : Bytes → Bytes) (clientReads : List Bytes) (svcSched : Bytes → List Bytes)
     (hsched : ∀ b, (svcSched b).flatten = b) :
     directMode svcOut clientReads svcSched =
